@@ -1,0 +1,36 @@
+//go:build verif
+
+package value
+
+import "unsafe"
+
+// VerifArrayInfo returns len, cap and the address of the first slot of the
+// backing array of an array value (build tag verif); ok is false for other kinds.
+func (t Type) VerifArrayInfo() (length, capacity int, data uintptr, ok bool) {
+	if t.typ != arrayT {
+		return 0, 0, 0, false
+	}
+	a := *(*[]Type)(t.ptr)
+	return len(a), cap(a), uintptr(unsafe.Pointer(unsafe.SliceData(a))), true
+}
+
+// VerifKind returns the name of the kind of t.
+func (t Type) VerifKind() string {
+	switch t.typ {
+	case nilT:
+		return "nil"
+	case intT:
+		return "int"
+	case floatT:
+		return "float"
+	case stringT:
+		return "string"
+	case arrayT:
+		return "array"
+	case boolT:
+		return "bool"
+	case functionT:
+		return "function"
+	}
+	return "?"
+}
